@@ -143,7 +143,7 @@ def run(ctx):
     t0 = time.time()
     V = vlib.Verdict(PID)
     gen = vlib.translate.run(GEN)
-    proof = vlib.prove(PID, THEOREMS, NAMESPACE)
+    proof = vlib.prove(PID, THEOREMS, NAMESPACE, extra_targets=("drv_c05",))
     for f in proof["failures"]:
         V.fail_tie("proof", "%s: %s" % (f["theorem"], f["reason"]), errors=proof["errors"][:5])
     if tier == "thorough" and proof["ok"]:
@@ -160,9 +160,9 @@ def run(ctx):
     impl, rc, err = vlib.run_lines(exe, lines)
     if rc != 0 or len(impl) != len(lines):
         V.fail_input("harness ended abnormally (rc=%s): %s" % (rc, err[-600:]), {"first_lines": lines[:3]}, key=None)
-    drv = vlib.driver_path()
+    drv = vlib.driver_path("drv_c05")
     model = None
-    if os.path.exists(drv) and proof["ok"] or os.path.exists(drv):
+    if os.path.exists(drv):
         model, rc2, err2 = vlib.run_lines(drv, lines)
         if rc2 != 0 or len(model) != len(lines):
             V.fail_tie("correspondence", "model driver ended abnormally (rc=%s) %s" % (rc2, err2[-300:]))
